@@ -166,17 +166,15 @@ theorem allocReqsOf_ne (c : ConsumerReq) (cons : ConsRow) (rows : List RpRow) (h
         rw [hl]
         exact List.mem_filterMap.mpr ⟨a, List.mem_cons_self, by rw [hf]; rfl⟩⟩
 
-theorem clearReqsOf_cons {s : DB R} (hw : WCons cu c0 s) (cons : ConsRow) (hne : cons.uuid ≠ cu) :
-    ∀ o ∈ clearReqsOf s cons, o.consId ≠ c0 := by
+theorem clearReqsOf_cons (s : DB R) (cons : ConsRow) :
+    ∀ o ∈ clearReqsOf s cons, o.consId = cons.id ∧ o.consGen = cons.gen := by
   intro o ho
   unfold clearReqsOf at ho
   split at ho
   · cases ho
-  · rename_i cur hcur
-    obtain ⟨a, -, ha⟩ := List.mem_filterMap.mp ho
+  · obtain ⟨a, -, ha⟩ := List.mem_filterMap.mp ho
     split at ha
-    · cases ha
-      exact (hw.find hcur).2.2 hne
+    · cases ha; exact ⟨rfl, rfl⟩
     · cases ha
 
 theorem aBuildNext_cm (ctx : ACtx R) : ∀ (l : List (ConsumerReq × ConsRow × ReqAttr)) (objs : List AllocReq),
@@ -195,14 +193,13 @@ theorem aBuildNext_cm (ctx : ACtx R) : ∀ (l : List (ConsumerReq × ConsRow × 
         have := hhead.2 e
         simp only at this
         rw [hemp] at this; cases this
-      have hcu : cons.uuid ≠ cu := by rw [hhead.1.1]; exact hne
       refine Commits.txn' _ _ (fun s hw => .inl ?_)
       unfold aGetAllocs
       refine aBuildNext_cm ctx rest _ hrest ?_ ?_
       · intro o hmem hid
         rcases List.mem_append.mp hmem with h1 | h1
         · exact ho o h1 hid
-        · exact absurd hid (clearReqsOf_cons hw cons hcu o h1)
+        · exact absurd ((clearReqsOf_cons s cons o h1).1.symm.trans hid) (hhead.1.2.2 hne)
       · rcases hex with ⟨o, hmem, hid⟩ | ⟨t, ht, hu⟩
         · exact .inl ⟨o, List.mem_append_left _ hmem, hid⟩
         · rcases List.mem_cons.mp ht with e | ht'
